@@ -110,27 +110,22 @@ func (t *TestRenumberer) processYaml(ruleId string, contents []byte) ([]byte, er
 	scanner := utils.NewLineScanner(bytes.NewReader(contents))
 	output := new(bytes.Buffer)
 	writer := bufio.NewWriter(output)
-	index := 0
 	idCount := 0
 	titleCount := 0
 	for scanner.Scan() {
 		line := scanner.Text()
 		matches := regex.TestIdRegex.FindStringSubmatch(line)
 		if matches != nil {
+			// the n-th ID is n
 			idCount++
-			if idCount > index {
-				index++
-			}
-			line = fmt.Sprint(matches[1], " ", index)
+			line = fmt.Sprint(matches[1], " ", idCount)
 		}
 		// legacy support
 		matches = regex.TestTitleRegex.FindStringSubmatch(line)
 		if matches != nil {
+			// the n-th title is <rule ID>-n
 			titleCount++
-			if titleCount > index {
-				index++
-			}
-			line = fmt.Sprint(matches[1], " ", ruleId, "-", index)
+			line = fmt.Sprint(matches[1], " ", ruleId, "-", titleCount)
 		}
 
 		if _, err := writer.WriteString(line); err != nil {
